@@ -168,6 +168,12 @@ Proof.
   intros raws raws' F. apply (G (length raws)); auto.
 Qed.
 
+Corollary keyword_case_parse : forall raws raws',
+  Forall2 kwcase_variant raws raws' -> parse_pipeline raws = parse_pipeline raws'.
+Proof.
+  intros raws raws' F. unfold parse_pipeline, parse_tokens. rewrite (keyword_case raws raws' F). reflexivity.
+Qed.
+
 (* in particular: an identifier-class raw token whose text is a keyword in ANY letter case becomes
    that keyword's token *)
 Theorem keyword_any_case code kw t peek : In (code, kw) keyword_entries -> supper t = kw ->
